@@ -129,7 +129,7 @@ def cases(tier, seed):
     for i in range(nrand):
         n = rng.choice((3, 4, 4, 4, 5))
         m = rng.randint(1, 6 if n < 5 else 3)
-        ov = rng.random() < 0.15
+        ov = rng.random() < 0.15 and n <= 4   # overlapping events over 5 variables: pgmpy needs ~40 s per closure
         A = [rand_assertion(rng, n, ov and rng.random() < 0.5) for _ in range(m)]
         if rng.random() < 0.2:
             a = rng.choice(A)
@@ -259,13 +259,14 @@ def run_clo(case, drv):
     wf = all(not (set(a[0]) & set(a[1]) or set(a[0]) & set(a[2]) or set(a[1]) & set(a[2])) for a in A)
     tags = ["closure n=%d |A|=%d%s" % (n, len(A), "" if wf else " overlapping")]
     ind = Independencies(*[mk(a) for a in A])
-    got = canon_impl(ind.closure())
+    clo_obj = ind.closure()
+    got = canon_impl(clo_obj)
     coded, fixed = drv.call("c18_closure", [A])
     coded, fixed = canon_m(coded), canon_m(fixed)
     key = common.canon_key(["clo", n, show(canon_m(A))])
     if got != coded:
         return bad("impl!=model:closure", {"A": A, "impl_only": show(got - coded), "model_only": show(coded - got)}, key=key)
-    if len(ind.closure().get_assertions()) != len(coded):
+    if len(clo_obj.get_assertions()) != len(coded):
         return bad("impl!=model:closure-duplicates", {"A": A}, key=key)
     if wf:
         bf = brute_closure(A)
